@@ -427,7 +427,9 @@ def deep_equal(a, b, depth=0):
         except Exception:   # noqa
             return False
     if isinstance(a, (int, float, complex, str, bool, type(None), np.integer, np.floating)):
-        return type(a) is type(b) or isinstance(b, (int, float, np.integer, np.floating)) and a == b if not isinstance(a, (str, type(None))) else a == b
+        if isinstance(a, (str, type(None))):
+            return a == b
+        return isinstance(b, (int, float, complex, bool, np.integer, np.floating)) and bool(a == b)
     if isinstance(a, (list, tuple)):
         return isinstance(b, (list, tuple)) and len(a) == len(b) and all(deep_equal(x, y, depth + 1) for x, y in zip(a, b))
     if isinstance(a, dict):
@@ -483,6 +485,9 @@ def struct_roundtrip(cfg):
         bad = sorted(k for k, v in calc.__dict__.items() if k in c2.__dict__ and k not in ('crys', 'GFcalc', 'GFcalc_real', 'GFvalues', 'Lvvvalues', 'etavvalues')
                      and v is not None and not deep_equal(v, c2.__dict__[k]))
         ob('vacancymediated-attributes-equal', not bad)
+        # ... and lacks none of them (an attribute that only __init__ sets makes a later method of the reloaded object fail)
+        lacking = sorted(k for k in calc.__dict__ if k not in c2.__dict__ and k not in ('GFcalc_real',))
+        ob('vacancymediated-has-every-attribute', not lacking)
         st = new_store()
         gf.addhdf5(st.create_group('G') if REPLAY else st)
         g2 = GFcalc.GFCrystalcalc.loadhdf5(crys, st['G'] if REPLAY else st)
@@ -508,7 +513,7 @@ def sections(tier):
     S = run.Section
     secs = []
     bud = 175 if tier == 'quick' else 1200
-    for cfg in (('square-1', 'rumple2d-1', 'rect2-1') if tier == 'quick' else ('square-1', 'rumple2d-1', 'rect2-1', 'sc-1', 'square-2')):
+    for cfg in (('square-1', 'rumple2d-1', 'rect2-1', 'sq3-1') if tier == 'quick' else ('square-1', 'rumple2d-1', 'rect2-1', 'sq3-1', 'sc-1', 'square-2')):
         secs.append(S('cache:' + cfg, cache_roundtrip(cfg), budget_s=bud, replayer='cache', config=cfg, maxpaths=64, timeout_ms=20000))
         if tier == 'quick' and cfg != 'square-1':
             secs.append(S('struct:' + cfg, struct_roundtrip(cfg), budget_s=bud, replayer='struct', config=cfg, maxpaths=2))
